@@ -28,7 +28,12 @@ KG = Fraction(864, 10)
 
 
 class Unsupported(Exception):
-    pass
+    """outside the grids / shapes the adapter can feed to the model exactly"""
+
+
+class Anomaly(Unsupported):
+    """the trace has a shape the unchanged simulator never produces (an emission repaired twice, a roll
+    for an emission that is not part of the scenario, …): the configuration is a failing input"""
 
 
 def exact_int(x, scale, what):
@@ -84,7 +89,7 @@ class Case:
         worlds = [e for e in ev if e[0] == "simworld"]
         if len(worlds) != 1:
             errs = [e for e in ev if e[0] == "simworld-error"]
-            raise Unsupported(f"no simworld event ({errs})")
+            raise Anomaly(f"no simworld event ({errs})")
         self.world = worlds[0][1]
         self.sched = {e[1]: e for e in ev if e[0] == "sched"}
         self.methods = self.world["methods"]
@@ -106,14 +111,14 @@ class Case:
         for e in ev:
             if e[0] == "rcost":
                 if e[2] is None:
-                    raise Unsupported("repair cost of an unregistered emission")
+                    raise Anomaly("repair cost of an unregistered emission")
                 if e[2] in rcost:
-                    raise Unsupported("two repair cost draws for one emission")
+                    raise Anomaly("two repair cost draws for one emission")
                 rcost[e[2]] = e[3]
         for s in w["sites"]:
             sid = self.sidx[s["id"]]
             if s["latest_tag"] != 0:
-                raise Unsupported("site latest tagging date is not the start date")
+                raise Anomaly("site latest tagging date is not the start date")
             groups = []
             for gi, g in enumerate(s["eqgs"]):
                 self.gidx[(s["id"], g["id"])] = gi
@@ -123,7 +128,7 @@ class Case:
                 for ci, c in enumerate(g["comps"]):
                     for k, src in enumerate(c["sources"]):
                         if src["cursor"] is not None:
-                            raise Unsupported("source cursor set before the run")
+                            raise Anomaly("source cursor set before the run")
                         ids = []
                         for em in src["ems"]:
                             assert em["g"] == len(self.ems)
@@ -150,7 +155,7 @@ class Case:
                 role = "s"
                 fu = self.midx.get(m["follow_up"]["schedule"])
                 if fu is None:
-                    raise Unsupported("screening method bound to a schedule outside the program")
+                    raise Anomaly("screening method bound to a schedule outside the program")
             else:
                 raise Unsupported("measurement scale " + m["scale"])
             if m["sensor"] not in ("DefaultComponentLevelSensor", "DefaultSiteLevelSensor"):
@@ -158,7 +163,7 @@ class Case:
             stationary = m["deployment"] == "stationary"
             sch = self.sched.get(name)
             if sch is None:
-                raise Unsupported("no sched event for " + name)
+                raise Anomaly("no sched event for " + name)
             crews, cap = sch[3], sch[4]
             cost = mc["cost"]
             per_site = cost.get("per_site")
@@ -170,9 +175,9 @@ class Case:
                 exact_int(cost.get("per_day", 0.0), COST_SCALE, "per_day"),
                 "-" if per_site is None else str(exact_int(per_site, COST_SCALE, "per_site")),
                 exact_int(cost.get("upfront", 0.0), COST_SCALE, "upfront"),
-                exact_int(m["mdl"], RATE_SCALE, "mdl"), m["reporting_delay"]))
+                exact_int(mc.get("mdl", m["mdl"]), RATE_SCALE, "mdl"), mc.get("reporting_delay", m["reporting_delay"])))
             if crews != m["crews"]:
-                raise Unsupported("schedule crews differ from method crews")
+                raise Anomaly("schedule crews differ from method crews")
             for st in sch[5]:
                 site, rs, months, depy, simy, plan, s_time = st
                 lines.append("msite %d %d %d %d %d %s %s %s %s" % (
@@ -181,12 +186,27 @@ class Case:
                 if m["is_follow_up"] and rs != 0:
                     raise Unsupported("follow-up method with its own survey frequency")
             if role == "s":
-                f = m["follow_up"]
+                f = dict(m["follow_up"])
+                # work-practice parameters are taken from the configuration, not from the constructed object
+                # (audit/LESSONS.md 5); what the object holds is only used where the configuration is silent
+                cf_ = mc.get("follow_up") or {}
+                if "proportion" in cf_:
+                    f["proportion"] = cf_["proportion"]
+                if "delay" in cf_:
+                    f["delay"] = cf_["delay"]
+                if "threshold" in cf_ and not stationary:
+                    f["threshold"] = cf_["threshold"]
+                if "instant_threshold" in cf_:
+                    f["inst_threshold"] = cf_["instant_threshold"]
+                if "interaction_priority" in cf_:
+                    f["threshold_first"] = cf_["interaction_priority"] == "threshold"
+                if "redundancy_filter" in cf_ and not stationary:
+                    f["filter"] = cf_["redundancy_filter"]
                 unit = RATE_SCALE * 100
                 inst = "-" if f["inst_threshold"] is None else rat(Fraction(f["inst_threshold"]) * unit)
                 flt = f["filter"] if f["filter"] in ("recent", "max", "average") else "recent"
                 lines.append("fup %d %d %d %d %s %d %s %s %s %d %d %s %s" % (
-                    i, int(stationary), m["reporting_delay"], f["delay"], rat(f["proportion"]), int(f["threshold_first"]),
+                    i, int(stationary), mc.get("reporting_delay", m["reporting_delay"]), f["delay"], rat(f["proportion"]), int(f["threshold_first"]),
                     rat(Fraction(f["threshold"] or 0) * unit), inst, flt, f["small_window"] or 1, f["large_window"] or 1,
                     rat(Fraction(f["small_window_threshold"] or 0) * unit), rat(Fraction(f["large_window_threshold"] or 0) * unit)))
         # calendar and daylight
@@ -213,11 +233,11 @@ class Case:
             if t == "cov":
                 _, d, meth, g, kind, out = e
                 if g is None:
-                    raise Unsupported("coverage roll of an unregistered emission")
+                    raise Anomaly("coverage roll of an unregistered emission")
                 r = rolls.setdefault((d, self.midx[meth]), {}).setdefault(g, [2, 2])
                 k = 0 if kind == "s" else 1
                 if r[k] != 2:
-                    raise Unsupported("two rolls of one kind for one emission on one day")
+                    raise Anomaly("two rolls of one kind for one emission on one day")
                 r[k] = out
             elif t == "ttime":
                 pending[e[2]] = e[3]
@@ -270,7 +290,7 @@ class Case:
         if m == 0:
             return None if t == 0 else -100
         if t == 0:
-            raise Unsupported("measured rate without a true rate")
+            raise Anomaly("measured rate without a true rate")
         k = (m / t - 1) * 100
         if k.denominator != 1:
             raise Unsupported(f"quantification shift {float(k)} is not an integer percentage")
